@@ -577,6 +577,9 @@ def r5_state_transfer(ctx, f, rep):
         rep.check(good, 'C01-R5', hd.nname, 'the payload of an active sender always reaches apply_many, whole (drain(..) of the '
                   'decoded updates) and with do_broadcast = true', construct='payload-applied')
     rep.floor('C01-R5', n, 40, 'handle_data paths with an active sender')
+    # ... and the list it drains is the decoded member list, entry by entry
+    from . import common as _cm
+    _cm.payload_staged_whole(ctx, f, rep, 'C01-R5')
 
 
 def check(ctx):
@@ -603,6 +606,7 @@ def check(ctx):
         r2_change_state(ctx, f, rep)
         r3_writers(ctx, f, rep)
         r4_routing(ctx, f, rep)
+        _common.routing_reads_current_identity(ctx, f, rep, 'C01-R4')
         r5_state_transfer(ctx, f, rep)
         # "Down is final until the member is forgotten": forgetting is exact - only the RemoveDown timer of that very
         # identity removes its Down record (C09-R5 / C08-R4 removal predicate, re-run here)
